@@ -196,7 +196,12 @@ class MultiAgentReplayBuffer:
             return np.array(value) if not isinstance(value, np.ndarray) else value
 
         results = [[] for _ in range(len(args))]
-        num_entries = len(next(iter(args[0].values())))
+        # Number of vectorised entries: read it from a leaf array, a dict or
+        # tuple observation would give its number of sub-spaces instead
+        first = next(iter(args[0].values()))
+        while isinstance(first, (dict, tuple)):
+            first = next(iter(first.values())) if isinstance(first, dict) else first[0]
+        num_entries = len(first)
         for i in range(num_entries):
             for j, arg in enumerate(args):
                 new_dict = {}
